@@ -20,7 +20,7 @@ Lemma deliver_queued h x t m :
   get_sess h x = Some t -> t.(s_conn) = None ->
   (match m with SJoin _ | SLeave _ => False | _ => True end) ->
   snd (deliver_to_session h x m) = [] /\
-  exists t', get_sess (fst (deliver_to_session h x m)) x = Some t' /\ t'.(s_pending) = t.(s_pending) ++ [m].
+  exists t', get_sess (fst (deliver_to_session h x m)) x = Some t' /\ t'.(s_pending) = enqueue t.(s_pending) m.
 Proof.
   intros Ht Hc Hm. unfold deliver_to_session. rewrite Ht.
   destruct m; try contradiction; cbn; rewrite Hc; cbn; (split; [reflexivity|]);
